@@ -121,6 +121,14 @@ def _main_check(ctx: Ctx) -> None:
               message=f"{[short(s) for s in stores_inp]}", file=fi.file, node=stores_inp[0] if stores_inp else fi.node)
     muts = mutating_sequence_methods(p)
     tv = track_loop.target.elts[1].id if isinstance(track_loop.target, ast.Tuple) else (track_loop.target.id if isinstance(track_loop.target, ast.Name) else None)
+    # `for seq, bars in zip(working list, result lists)`: the track and its own bar list walked in parallel instead of by index
+    zip_bars = None
+    if isinstance(track_loop.iter, ast.Call) and src(track_loop.iter.func) == "zip" and isinstance(track_loop.target, ast.Tuple) \
+            and len(track_loop.target.elts) == len(track_loop.iter.args) == 2 and all(isinstance(x, ast.Name) for x in list(track_loop.target.elts) + list(track_loop.iter.args)):
+        pairs_ = {a.id: t.id for t, a in zip(track_loop.target.elts, track_loop.iter.args)}
+        if wl in pairs_:
+            tv = pairs_[wl]
+            zip_bars = next((t for a, t in pairs_.items() if a != wl), None), next((a for a in pairs_ if a != wl), None)
     input_vars = {tv}
     for s in fi.node.body:
         if isinstance(s, ast.Assign) and isinstance(s.value, ast.Subscript) and isinstance(s.value.value, ast.Name) and s.value.value.id in (wl, inp) \
@@ -282,16 +290,20 @@ def _main_check(ctx: Ctx) -> None:
     tc = TypeCase(p, fi, set(), None)
     exits = tc.run_body(track_loop.body)
     kinds = {k for k, _ in exits}
-    rng = events_matching(exits, lambda e: e[0] == "append" and e[1].startswith(f"{res}["), kinds=("end", "continue", "break"))
+    rng = events_matching(exits, lambda e: e[0] == "append" and (e[1].startswith(f"{res}[") or (zip_bars is not None and zip_bars[1] == res and e[1] == zip_bars[0])),
+                          kinds=("end", "continue", "break"))
     ctx.check(rng == (1, 1) and kinds == {"end"}, "ONE", f"{FN}: exactly one bar appended per track per round {rng}", function=FN,
               construct="a round does not append exactly one bar to every track on every path",
               message=f"appends {rng}, exits {sorted(kinds)}: tracks would end up with different bar counts", file=fi.file, node=track_loop)
     app = [c for c in ast.walk(track_loop) if isinstance(c, ast.Call) and call_method(c)[1] == "append" and src(call_method(c)[0]).startswith(f"{res}[")]
     idx = track_loop.target.elts[0].id if isinstance(track_loop.target, ast.Tuple) else None
-    ctx.check(all(src(call_method(c)[0]) == f"{res}[{idx}]" for c in app) and bool(app), "ONE", f"{FN}: the bar goes to its own track's list",
+    zapp = [c for c in ast.walk(track_loop) if zip_bars is not None and zip_bars[1] == res and isinstance(c, ast.Call) and call_method(c)[1] == "append"
+            and src(call_method(c)[0]) == zip_bars[0]]
+    ctx.check((all(src(call_method(c)[0]) == f"{res}[{idx}]" for c in app) and bool(app)) or (not app and bool(zapp)), "ONE", f"{FN}: the bar goes to its own track's list",
               function=FN, construct="bar appended to another track's list", message=f"{[short(c, 40) for c in app]}", file=fi.file, node=track_loop)
-    ctx.check(isinstance(track_loop.iter, ast.Call) and isinstance(track_loop.iter.func, ast.Name) and track_loop.iter.func.id == "enumerate"
-              and isinstance(track_loop.iter.args[0], ast.Name) and track_loop.iter.args[0].id == wl, "ONE", f"{FN}: the round visits every track",
+    ctx.check((isinstance(track_loop.iter, ast.Call) and isinstance(track_loop.iter.func, ast.Name) and track_loop.iter.func.id == "enumerate"
+               and isinstance(track_loop.iter.args[0], ast.Name) and track_loop.iter.args[0].id == wl) or (zip_bars is not None and zip_bars[1] == res),
+              "ONE", f"{FN}: the round visits every track",
               function=FN, construct="per-round loop does not enumerate all tracks", message=short(track_loop.iter), file=fi.file, node=track_loop)
 
     # --- PLACEHOLDER
@@ -342,7 +354,9 @@ def _main_check(ctx: Ctx) -> None:
                 return (op is ast.Gt and r.value == 1) or (op is ast.GtE and r.value == 2) or (op is ast.NotEq and False)
         return False
     ok = bool(setf) and all(any(isinstance(a, ast.If) and _two_or_more(a.test) and any(s is x for y in a.body for x in ast.walk(y)) for a in ancestors(s)) for s in setf)
-    if not flag_names or not sync:
+    if semantic:
+        pass                 # decided above: a flag is set exactly in the case "piece and remainder"
+    elif not flag_names or not sync:
         ctx.undetermined("PLACEHOLDER", f"{FN}: another round runs iff some track still has a remainder", "no boolean round flag recognised: not judged")
     else:
         ctx.check(ok, "PLACEHOLDER", f"{FN}: another round runs iff some track still has a remainder", function=FN,
@@ -451,13 +465,17 @@ def _main_check(ctx: Ctx) -> None:
             oku = False
             if len(uses) == 1:
                 t = uses[0].test
-                found = isinstance(t, ast.Compare) and isinstance(t.ops[0], ast.IsNot) and isinstance(t.comparators[0], ast.Constant) and t.comparators[0].value is None \
-                    and src(t.left) == var
-                pops = [c for x in uses[0].body for c in ast.walk(x) if isinstance(c, ast.Call) and call_method(c)[1] == "pop" and src(call_method(c)[0]) == lst]
+                is_none_cmp = isinstance(t, ast.Compare) and len(t.ops) == 1 and isinstance(t.comparators[0], ast.Constant) and t.comparators[0].value is None and src(t.left) == var
+                found = is_none_cmp and isinstance(t.ops[0], ast.IsNot)
+                # the branch taken when an event was found: the body of `is not None`, or the else of `is None`
+                found_branch, other_branch = (uses[0].body, uses[0].orelse) if found else (uses[0].orelse, uses[0].body)
+                mirrored = is_none_cmp and isinstance(t.ops[0], ast.Is) and bool(uses[0].orelse)
+                pops = [c for x in found_branch for c in ast.walk(x) if isinstance(c, ast.Call) and call_method(c)[1] == "pop" and src(call_method(c)[0]) == lst]
                 okpop = len(pops) == 1 and len(pops[0].args) == 1 and isinstance(pops[0].args[0], ast.Constant) and pops[0].args[0].value == 0
-                reads = [a for x in uses[0].body for a in ast.walk(x) if isinstance(a, ast.Attribute) and isinstance(a.value, ast.Subscript) and src(a.value.value) == var]
-                okread = bool(reads) and all(isinstance(a.value.slice, ast.Constant) and a.value.slice.value == 1 for a in reads)
-                oku = found and okpop and okread and not uses[0].orelse and uses[0].lineno < length.lineno
+                reads = [a for x in found_branch for a in ast.walk(x) if isinstance(a, ast.Subscript) and src(a.value) == var]
+                okread = bool(reads) and all(isinstance(a.slice, ast.Constant) and a.slice.value == 1 for a in reads)
+                quiet_other = not any(isinstance(c, ast.Call) for x in other_branch for c in ast.walk(x))       # nothing consumed when nothing was found
+                oku = (found or mirrored) and okpop and okread and quiet_other and uses[0].lineno < length.lineno
             ctx.check(oku, "CONSUME", f"{FN}: an applied `{var}` is removed from the front of `{lst}` and its event's fields are used", function=FN,
                       construct="an applied signature/key event is not consumed (or applied when none was found)",
                       message="without the removal the same event is found again in every later bar and later changes are never applied", file=fi.file,
